@@ -6,11 +6,11 @@ use snel_harness::rng::Rng;
 pub const IDENTS: &[&str] = &[
     "a", "b", "c", "x", "y", "status", "user_id", "amount", "ts", "e1", "plan-type", "_p", "A1", "Order", "NOTE",
     "android", "order_id", "inn", "ORacle", "nothing", "format", "index", "and", "or", "in", "limit", "where", "count",
-    "time", "asc", "ev", "payment_succeeded", "z9-", "k",
+    "timer", "asc", "ev", "payment_succeeded", "z9-", "k",
 ];
 /// identifiers that begin with a keyword followed by a non-letter: the grammar's `ci()` matches the
 /// keyword inside them (finding class keyword-prefix-ident)
-pub const HAZARD_IDENTS: &[&str] = &["not_x", "NOT-y", "Not_1", "not", "for_x", "FOR-1", "by_region", "per_user", "limit_max", "using_k", "where_1", "order_by"];
+pub const HAZARD_IDENTS: &[&str] = &["not_x", "NOT-y", "Not_1", "not", "for_x", "FOR-1", "by_region", "per_user", "limit_max", "using_k", "where_1", "order_by", "time", "time_ms", "Time-1"];
 pub const STRINGS: &[&str] = &[
     "", "c1", "ctx 1", "2024-01-01T00:00:00Z", "a b", "AND", "x OR y", "(", ")", "naïve", "日本", "1", "-5", "1.5", "it's", "a,b", "[x]", "{}", ";", "tab\there",
     "\u{a0}nbsp", "emoji🚀", "@home", "50%", "semi;colon", "q?", "#1",
@@ -133,7 +133,7 @@ pub fn query(r: &mut Rng, hazard_pct: u64) -> Command {
         event_type,
         context_id: opt(r, 1, 3, string),
         since: opt(r, 1, 4, string),
-        time_field: opt(r, 1, 6, |r| field(r, 0)),
+        time_field: opt(r, 1, 6, |r| field(r, hazard_pct)),
         sequence_time_field: opt(r, 1, 10, |r| field(r, 0)),
         where_clause: opt(r, 4, 5, |r| expr(r, depth, hazard_pct)),
         limit: opt(r, 1, 3, |r| match r.below(4) { 0 => u32::MAX, 1 => 0, _ => r.below(1000) as u32 }),
@@ -180,7 +180,7 @@ pub fn simple_command(r: &mut Rng, hazard_pct: u64) -> Command {
 }
 
 /// Does the command value contain an identifier the grammar's `ci()` splits (class keyword-prefix-ident)?
-pub fn has_keyword_prefix_ident(c: &Command) -> bool {
+pub fn keyword_ident_collision(c: &Command) -> bool {
     fn run_is(s: &str, k: &str) -> bool {
         letter_run(s).eq_ignore_ascii_case(k)
     }
@@ -192,8 +192,9 @@ pub fn has_keyword_prefix_ident(c: &Command) -> bool {
         }
     }
     match c {
-        Command::Query { where_clause, aggs, .. } => {
+        Command::Query { where_clause, aggs, time_field, .. } => {
             where_clause.as_ref().is_some_and(in_expr)
+                || time_field.as_ref().is_some_and(|f| run_is(f, "TIME"))
                 || aggs.as_ref().is_some_and(|l| l.iter().any(|a| {
                     let f = match a {
                         AggSpec::Count { unique_field } => unique_field.as_deref(),
@@ -203,8 +204,8 @@ pub fn has_keyword_prefix_ident(c: &Command) -> bool {
                 }))
         }
         Command::Replay { event_type: Some(et), .. } => run_is(et, "FOR"),
-        Command::Batch(cs) => cs.iter().any(has_keyword_prefix_ident),
-        Command::RememberQuery { spec } => has_keyword_prefix_ident(&spec.query),
+        Command::Batch(cs) => cs.iter().any(keyword_ident_collision),
+        Command::RememberQuery { spec } => keyword_ident_collision(&spec.query),
         _ => false,
     }
 }
@@ -231,7 +232,7 @@ pub fn soup(r: &mut Rng) -> String {
         if i > 0 && !r.chance(1, 6) {
             out.push_str(match r.below(10) { 0 => "  ", 1 => "\t", 2 => "\n", _ => " " });
         }
-        out.push_str(r.pick(SOUP));
+        out.push_str(*r.pick(SOUP));
     }
     out
 }
@@ -307,13 +308,28 @@ pub fn random_bytes(r: &mut Rng) -> String {
     let bytes: Vec<u8> = (0..n).map(|_| match r.below(4) { 0 => r.below(256) as u8, _ => 32 + r.below(95) as u8 }).collect();
     String::from_utf8_lossy(&bytes).into_owned()
 }
-/// keep the exponential backtracking of nested "(" / "{" within reach
+/// keep the exponential backtracking of nested "(" / "{" within reach: nesting deeper than the
+/// limit is flattened (the bracket and its partner become spaces)
 pub fn tame(s: String) -> String {
-    let mut parens = 0;
-    let mut braces = 0;
-    s.chars().map(|c| match c {
-        '(' => { parens += 1; if parens > 9 { ' ' } else { c } }
-        '{' => { braces += 1; if braces > 12 { ' ' } else { c } }
-        _ => c,
-    }).collect()
+    let mut out: Vec<char> = s.chars().collect();
+    for (open, close, limit) in [('(', ')', 7usize), ('{', '}', 10usize)] {
+        let mut stack: Vec<bool> = vec![]; // kept?
+        let mut depth = 0usize;
+        let mut total = 0usize;
+        for c in out.iter_mut() {
+            if *c == open {
+                total += 1;
+                let keep = depth < limit && total <= 4 * limit;
+                stack.push(keep);
+                if keep { depth += 1; } else { *c = ' '; }
+            } else if *c == close {
+                match stack.pop() {
+                    Some(true) => depth -= 1,
+                    Some(false) => *c = ' ',
+                    None => {}
+                }
+            }
+        }
+    }
+    out.into_iter().collect()
 }
